@@ -66,6 +66,8 @@ def worker():
                         view(net, h["ev"]).set(h["ev"]["ty"] + "_s", float(h["x"]))
                     elif h["op"] == "record":
                         view(net, h["ev"]).record((h["ev"]["ty"] + "_s") if h["what"] == "s" else ("i_" + h["ev"]["ty"]), verbose=False)
+                    elif h["op"] == "delrec":
+                        view(net, h["ev"]).delete_recordings()
                     elif h["op"] == "clamp":
                         nin += 1
                         view(net, h["ev"]).clamp(h["ev"]["ty"] + "_s", jnp.asarray([float(50 * nin + k) for k in range(1, T + 1)]), verbose=False)
@@ -168,7 +170,7 @@ def main(which):
         if len(sts) < 300:
             raise C.MachineryError("only %d weight-edit histories sampled" % len(sts))
     ops = Counter(h["op"] for s in sts for h in s["hist"])
-    for need in (("connect", "setw") if which == "C10" else ("connect", "setw", "sets", "record", "clamp", "stim")):
+    for need in (("connect", "setw") if which == "C10" else ("connect", "setw", "sets", "record", "delrec", "clamp", "stim")):
         if ops[need] == 0:
             raise C.MachineryError("vacuity: no sampled history contains %s" % need)
     backends = ["jaxley.thomas", "jax.sparse"] if quick else ["jaxley.stone", "jaxley.thomas", "jax.sparse"]
